@@ -108,3 +108,39 @@ Proof.
   - unfold spec_search. apply filter_app.
 Qed.
 End Laws.
+
+(* ---- getters ------------------------------------------------------------------------------------------- *)
+Section GetterLaws.
+Variable E : env.
+
+(* a dropped measurement is no longer listed, and nothing else disappears from the list *)
+Theorem drop_removes_measurement s name : Inv s -> name <> [] ->
+  let db' := st_rows (fst (db_drop E s name)) in
+  ~ In name (spec_measurements db') /\
+  (forall m, m <> name -> In m (spec_measurements (st_rows s)) -> In m (spec_measurements db')).
+Proof.
+  intros HI Hn. cbv zeta. destruct (db_drop_spec E s name HI Hn) as [_ [Hr _]]. rewrite Hr. unfold spec_measurements. split.
+  - rewrite sort_dedup_In, in_map_iff. intros [p [Hm Hp]]. apply filter_In in Hp. destruct Hp as [_ Hf].
+    rewrite <- Hm in Hf. apply negb_true_iff in Hf. assert (str_eqb (p_meas p) (p_meas p) = true) by (apply str_eqb_eq; reflexivity). congruence.
+  - intros m Hm. rewrite !sort_dedup_In, !in_map_iff. intros [p [Hpm Hp]]. exists p. split; [exact Hpm|].
+    apply filter_In. split; [exact Hp|]. apply negb_true_iff. destruct (str_eqb (p_meas p) name) eqn:Ee; [|reflexivity].
+    apply str_eqb_eq in Ee. congruence.
+Qed.
+
+(* an insert only adds: every measurement, tag key and field key listed before is still listed afterwards *)
+Theorem getters_grow_with_inserts m db new :
+  (forall x, In x (spec_measurements db) -> In x (spec_measurements (db ++ new))) /\
+  (forall x, In x (spec_tag_keys m db) -> In x (spec_tag_keys m (db ++ new))) /\
+  (forall x, In x (spec_field_keys m db) -> In x (spec_field_keys m (db ++ new))) /\
+  spec_len (db ++ new) = spec_len db + length new /\
+  spec_timestamps m (db ++ new) = spec_timestamps m db ++ spec_timestamps m new.
+Proof.
+  unfold spec_measurements, spec_tag_keys, spec_field_keys, spec_len, spec_timestamps, in_meas.
+  repeat split.
+  - intros x. rewrite !sort_dedup_In, map_app, in_app_iff. auto.
+  - intros x. rewrite !sort_dedup_In. destruct (truthy m); rewrite ?filter_app, flat_map_app, in_app_iff; auto.
+  - intros x. rewrite !sort_dedup_In. destruct (truthy m); rewrite ?filter_app, flat_map_app, in_app_iff; auto.
+  - apply app_length.
+  - destruct (truthy m); rewrite ?filter_app, map_app; reflexivity.
+Qed.
+End GetterLaws.
